@@ -18,6 +18,8 @@ import Vlsp.Model.Migrate
 import Vlsp.Model.Bump
 import Vlsp.Spec.BumpSpec
 import Vlsp.Model.Registry
+import Vlsp.Model.Server
+import Vlsp.Model.Config
 
 /-! Line-protocol plumbing shared by the driver's op tables. -/
 namespace DriverLib
@@ -132,6 +134,8 @@ def specDiag (eco latest tagres cur : Text) (versions : List Text) : String :=
 def intOfText (t : Text) : Int := (String.ofList t).toInt!
 
 structure DState where
+  srv : Srv := {}
+  answer : ConfigM.Answer := .failed
   shape : Migrate.Shape := Migrate.fresh
   schemaDone : Bool := false
   claim : Claim.Sys := Claim.init {} 0
@@ -385,6 +389,68 @@ def httpTagSha (f : List Text) : String :=
     | .ok sha => s!"ok {hex sha} paths={listStr [path]}"
     | .error e => s!"err {regErrStr e} paths={listStr [path]}"
   | _ => "BAD"
+
+def diagMsgStr (d : Diag) : String :=
+  let sv := match d.sev with | .warning => "W" | .error => "E"
+  s!"{sv}:{hex d.msg}@{d.line}:{d.c1}-{d.line}:{d.c2}"
+
+def msgStr : Msg → String
+  | .pub uri ds => s!"pub {hex uri} [{",".intercalate (ds.map diagMsgStr)}]"
+  | .show kind m => s!"show {kind} {hex m}"
+
+def parkedStr (s : Srv) : String :=
+  let all := s.tasks.flatMap fun t => t.waiting.map fun n => String.ofList t.reg ++ "/" ++ hex n
+  "parked=[" ++ ",".intercalate (all.mergeSort (fun a b => a ≤ b)) ++ "]"
+
+def outLine (msgs : List String) (s : Srv) : String := " ; ".intercalate (msgs ++ [parkedStr s])
+
+/-- the LSP server model, same line protocol as the harness (`l.*`), documents given as parsed packages -/
+def lspStep (st : DState) (op : String) (f : List Text) : Option (DState × String) :=
+  match op, f with
+  | "ml.config", [a] =>
+    let ans : ConfigM.Answer :=
+      if a == "FAIL".toList then .failed else if a == "NONE".toList then .empty
+      else match Json.parse a with
+        | some j => .value j
+        | none => .failed
+    some ({ st with answer := ans }, "ok")
+  | "ml.start", [ip] =>
+    some ({ st with srv := { now := 1000, ccfg := ⟨Generated.defaultRefreshIntervalMs, ip == ['T']⟩ } }, "ok")
+  | "ml.cache", reg :: name :: vs =>
+    some ({ st with srv := { st.srv with db := Cache.replaceVersions st.srv.db ⟨reg, name⟩ vs st.srv.now } }, "ok")
+  | "ml.tags", reg :: name :: kv =>
+    some ({ st with srv := { st.srv with db := Cache.saveDistTags st.srv.db ⟨reg, name⟩ (pairs kv) st.srv.now } }, "ok")
+  | "ml.now", [t] => some ({ st with srv := { st.srv with now := intOfText t } }, "ok")
+  | "ml.init", regs =>
+    let (s1, msgs) := ConfigM.applyAnswer st.srv st.answer
+    let s2 := regs.foldl (fun s r => Server.startRefresh s r) s1
+    some ({ st with srv := s2 }, outLine ("cfgreq" :: msgs.map msgStr) s2)
+  | "ml.edit", uri :: npk :: rest =>
+    let (pkgs, _) := parsePkgs (natOfText npk) rest
+    let (s', msgs) := Server.edit st.srv uri pkgs
+    some ({ st with srv := s' }, outLine (msgs.map msgStr) s')
+  | "ml.close", [uri] => let s' := Server.close st.srv uri; some ({ st with srv := s' }, outLine [] s')
+  | "ml.action", [uri, line, ch] =>
+    let r := match Server.codeAction st.srv uri (natOfText line) (natOfText ch) with
+      | none => "act none"
+      | some acts => "act [" ++ ",".intercalate (acts.map fun a => s!"{hex a.title}|{a.line}|{a.startCol}|{a.endCol}|{hex a.newText}") ++ "]"
+    some (st, outLine [r] st.srv)
+  | "ml.reply", reg :: name :: kind :: rest =>
+    let o : Fetch.Outcome :=
+      match String.ofList kind with
+      | "ok" =>
+        let (vs, tg) := rest.span (· != ['|'])
+        .ok vs (pairs (tg.drop 1))
+      | "nf" => .notFound
+      | "rl" => .rateLimited
+      | _ => .invalid
+    if (st.srv.tasks.any fun t => t.reg == reg && t.waiting.contains name) then
+      let (s', msgs) := Server.reply st.srv reg name o
+      some ({ st with srv := s' }, outLine (msgs.map msgStr) s')
+    else some (st, "noparked")
+  | "ml.settle", [] => some (st, outLine [] st.srv)
+  | "ml.dump", [] => some (st, dumpDb st.srv.db)
+  | _, _ => none
 
 /-- stateful cache ops; `none` when the op is not a cache op -/
 def cacheStep (st : DState) (op : String) (f : List Text) : Option (DState × String) :=
